@@ -16,3 +16,6 @@ type Num interface{ ~int | ~int64 }
 type Key string
 
 type Entry[T any] struct{ V T }
+
+// Stringer is a constraint without type terms (no representative type can be derived from it).
+type Stringer interface{ String() string }
